@@ -758,3 +758,113 @@ Qed.
 
 Lemma set_seed_nonzero : forall seed, Forall (fun w => w <> 0) (xdbl (set_seed seed)).
 Proof. intros. rewrite set_seed_words. apply map_map_Forall; [apply word_nonzero|apply regs_inv, seed_bits_inv]. Qed.
+
+(* ------------------------------------------------------------------ streams *)
+Lemma next_wf : forall s, wf s -> wf (snd (next s)).
+Proof. intros s H. apply (next_sim s H). Qed.
+
+Lemma next_pr : forall s, wf s -> pr (snd (next s)) = pr s.
+Proof. intros s H. apply (next_sim s H). Qed.
+
+Lemma after_wf : forall n s, wf s -> wf (after n s).
+Proof. induction n; intros; cbn [after]; auto. apply IHn, next_wf. auto. Qed.
+
+Lemma next_range : forall s, wf s -> word_ok (fst (next s)).
+Proof.
+  intros s H. pose proof (next_wf s H) as (Hlen & Hx & _ & Hi & _).
+  change (fst (next s)) with (zn (xdbl (snd (next s))) (ir (snd (next s)))).
+  apply Forall_zn; auto. rewrite Hlen. change (Z.of_nat 12) with 12. lia.
+Qed.
+
+Lemma range_thm : forall seed n, 0 <= nth_output seed n < W.
+Proof. intros. unfold nth_output. apply next_range, after_wf, set_seed_wf. Qed.
+
+Lemma integer_range : forall s, wf s -> 0 <= fst (next_integer s) < 2147483648.
+Proof.
+  intros s H. pose proof (next_range s H) as R. unfold next_integer. destruct (next s) as [n s']. cbn [fst] in *.
+  unfold word_ok, W in R. split; [apply Z.div_pos; lia|apply Z.div_lt_upper_bound; lia].
+Qed.
+
+Lemma stream_lux : forall n s p, wf s -> pr s = Z.of_nat p -> stream n s = lux_stream p n (abs s).
+Proof.
+  induction n as [|n IH]; intros s p H Hp; [reflexivity|].
+  cbn [stream lux_stream]. destruct (next_sim s H) as (H1 & H2 & H3 & H4).
+  rewrite Hp, Nat2Z.id in H3, H4.
+  destruct (next s) as [v s']. destruct (lux_next p (abs s)) as [v' g']. cbn [fst snd] in *.
+  subst v' g'. f_equal. apply IH; auto. congruence.
+Qed.
+
+Lemma stream_spec : forall n seed, stream n (set_seed seed) = lux_stream 397 n (lux_init seed).
+Proof. intros. rewrite <- set_seed_spec. apply stream_lux; [apply set_seed_wf|reflexivity]. Qed.
+
+Lemma stream_nth : forall n s k, (k < n)%nat -> nth k (stream n s) 0 = fst (next (after k s)).
+Proof.
+  induction n as [|n IH]; intros s k H; [lia|]. cbn [stream].
+  destruct k as [|k]; cbn [after]; destruct (next s) as [v s'] eqn:E; cbn [nth fst snd]; [reflexivity|].
+  apply IH. lia.
+Qed.
+
+(* ------------------------------------------------------------------ seeds *)
+Lemma seed_zero_is_one : set_seed 0 = set_seed 1.
+Proof. reflexivity. Qed.
+
+Lemma seed_mod : forall s1 s2, s1 <> 0 -> s2 <> 0 -> s1 mod 2147483648 = s2 mod 2147483648 -> set_seed s1 = set_seed s2.
+Proof.
+  intros s1 s2 H1 H2 E. unfold set_seed. rewrite !seed_index_mod.
+  destruct (s1 =? 0) eqn:E1; [apply Z.eqb_eq in E1; contradiction|].
+  destruct (s2 =? 0) eqn:E2; [apply Z.eqb_eq in E2; contradiction|]. rewrite E. reflexivity.
+Qed.
+
+Fixpoint bval (l : list Z) : Z := match l with [] => 0 | b :: t => b + 2 * bval t end.
+
+Lemma bval_seed_bits : forall n i, bval (seed_bits n i) = i mod 2 ^ Z.of_nat n.
+Proof.
+  induction n as [|n IH]; intros i.
+  - cbn [seed_bits bval]. change (2 ^ Z.of_nat 0) with 1. rewrite Z.mod_1_r. reflexivity.
+  - cbn [seed_bits bval]. rewrite IH, Nat2Z.inj_succ, Z.pow_succ_r by lia.
+    rewrite Z.rem_mul_r; [reflexivity|lia|apply Z.pow_pos_nonneg; lia].
+Qed.
+
+Lemma seed_bits_inj : forall i j, 0 <= i < 2147483648 -> 0 <= j < 2147483648 -> seed_bits 31 i = seed_bits 31 j -> i = j.
+Proof.
+  intros i j Hi Hj E. apply (f_equal bval) in E. rewrite !bval_seed_bits in E.
+  change (2 ^ Z.of_nat 31) with 2147483648 in E. rewrite !Z.mod_small in E by lia. exact E.
+Qed.
+
+Lemma first_word_inj : forall r1 r2, reginv r1 -> reginv r2 ->
+  word_of_bits (lfsr 48 r1) = word_of_bits (lfsr 48 r2) -> r1 = r2.
+Proof.
+  intros r1 r2 H1 H2 E. rewrite !wob_fold in E.
+  change 48%nat with (31 + 17)%nat in E. rewrite !lfsr_add, !fold_left_app in E.
+  rewrite (lfsr_prefix 31 r1), (lfsr_prefix 31 r2) in E by (destruct H1 as [L _], H2 as [L' _]; lia).
+  destruct H1 as [L1 B1]. destruct H2 as [L2 B2].
+  rewrite !firstn_all2 in E by lia.
+  assert (E' : fold_left wacc r1 0 = fold_left wacc r2 0 /\ lfsr 17 (iter 31 shift r1) = lfsr 17 (iter 31 shift r2)).
+  { apply fold_inj; [rewrite !length_lfsr; reflexivity|apply lfsr_bits, iter_shift_inv; split; auto|apply lfsr_bits, iter_shift_inv; split; auto|exact E]. }
+  destruct E' as [E' _].
+  assert (E'' : 0 = 0 /\ r1 = r2) by (apply fold_inj; auto; congruence).
+  tauto.
+Qed.
+
+Lemma hd_map_map : forall (f : list Z -> Z) (g : list Z -> list Z) r l, hd 0 (map f (map g (r :: l))) = f (g r).
+Proof. reflexivity. Qed.
+
+Lemma regs_S : forall n r, regs (S n) r = r :: regs n (iter 48 shift r).
+Proof. reflexivity. Qed.
+
+Lemma seed_words_inj : forall i j, 0 <= i < 2147483648 -> 0 <= j < 2147483648 ->
+  seed_words_spec i = seed_words_spec j -> i = j.
+Proof.
+  intros i j Hi Hj E. apply (f_equal (hd 0)) in E.
+  rewrite !seed_words_spec_eq, !(regs_S 11%nat), !hd_map_map in E.
+  apply first_word_inj in E; auto using seed_bits_inv. apply seed_bits_inj; auto.
+Qed.
+
+Lemma seeding_injective : forall s1 s2, 1 <= s1 < 2147483648 -> 1 <= s2 < 2147483648 ->
+  xdbl (set_seed s1) = xdbl (set_seed s2) -> s1 = s2.
+Proof.
+  intros s1 s2 H1 H2 E. rewrite !set_seed_words, <- !seed_words_spec_eq, !seed_index_mod in E.
+  destruct (s1 =? 0) eqn:E1; [apply Z.eqb_eq in E1; lia|].
+  destruct (s2 =? 0) eqn:E2; [apply Z.eqb_eq in E2; lia|].
+  rewrite !Z.mod_small in E by lia. apply seed_words_inj; auto; lia.
+Qed.
